@@ -48,7 +48,7 @@ WORKERS = {"quick": 1, "thorough": 14}
 
 def gen_cases(ctx):
     rng = ctx.rng
-    for i in range(ctx.scale(4500, 120000)):
+    for i in range(ctx.scale(4500, 720000)):
         c = gen_history_case(rng, max_jobs=rng.choice([2, 3, 4, 5, 6]),
                              max_machines=rng.choice([2, 3, 4, 5]))
         c["kind"] = "history"
